@@ -13,8 +13,8 @@ PROP = dict(
         race_thorough=True,
         env=dict(GORACE="log_path=racelog"),
         tests=[
-            dict(name="TestHistory", quick=(6, 1500), thorough=(16, 2500)),
-            dict(name="TestConcurrent", quick=(4, 800), thorough=(8, 2000)),
+            dict(name="TestHistory", quick=(6, 1200), thorough=(16, 2500)),
+            dict(name="TestConcurrent", quick=(4, 600), thorough=(8, 2000)),
             dict(name="TestConcurrentP1", gomaxprocs=1, quick=(1, 400), thorough=(2, 1500)),
             dict(name="TestConcurrentP2", gomaxprocs=2, quick=(1, 400), thorough=(2, 1500)),
             dict(name="TestConcurrentP4", gomaxprocs=4, quick=(1, 400), thorough=(2, 1500)),
